@@ -174,6 +174,12 @@ func NewFullRT(h host.Host, protocolPrefix protocol.ID, options ...Option) (*Ful
 	if err := dhtcfg.Validate(); err != nil {
 		return nil, err
 	}
+	if dhtcfg.BucketSize <= 0 {
+		// the configuration is built by hand, not from the defaults: without a
+		// bucket size GetClosestPeers would never fill a result (and, with the
+		// diversity limit disabled, never advance through the table)
+		dhtcfg.BucketSize = amino.DefaultBucketSize
+	}
 
 	ms := dhtcfg.MsgSenderBuilder(h, amino.Protocols)
 	protoMessenger, err := dht_pb.NewProtocolMessenger(ms)
